@@ -61,6 +61,7 @@ const (
 	regionSelect   = "select-shared-cases"
 	regionSendExpr = "select-send-expr"
 	regionGetFunc  = "getfunc-writeback"
+	regionLazyType = "case-lazy-reftype"
 )
 
 type c08params struct {
@@ -70,6 +71,9 @@ type c08params struct {
 }
 
 func (p c08params) coq() string {
+	if p.Tpl == tplOps && c08Ops[p.Sub].Region == regionLazyType {
+		return fmt.Sprintf("(mkparams TOpsLazy %d %d %s %s)", p.N, p.K, coqZ(int64(p.A)), coqZ(int64(p.B)))
+	}
 	return fmt.Sprintf("(mkparams %s %d %d %s %s)", c08TplCoq[p.Tpl], p.N, p.K, coqZ(int64(p.A)), coqZ(int64(p.B)))
 }
 
@@ -977,6 +981,9 @@ func runC08(args []string) error {
 		if p.Tpl == tplSelSendX {
 			j.Region = regionSendExpr
 		}
+		if p.Tpl == tplOps && c08Ops[p.Sub].Region != "" {
+			j.Region = c08Ops[p.Sub].Region
+		}
 		if p.Tpl == tplGoLit && p.N >= 2 {
 			j.Region = regionGetFunc
 		}
@@ -1044,6 +1051,9 @@ func runC08(args []string) error {
 			p.Sub, p.SubName = sub, c08Ops[sub].Name
 			if p.N > 8 && p.K > 12 {
 				p.K = 12
+			}
+			if m := c08Ops[sub].KMul; m > 1 {
+				p.K *= m
 			}
 			addJob(p, gmps[(c/2)%len(gmps)], yields[c%len(yields)], true)
 			addJob(p, gmps[r.intn(len(gmps))], yields[r.intn(len(yields))], false)
